@@ -177,7 +177,7 @@ fn run_case(case: &Case, gc: bool) -> RunOut {
             Case::HtmlScripted { tree, .. } => tree,
             _ => unreachable!(),
         };
-        let (dom, _, _) = drive(ModelDom::new(), &tc.cfg, &tc.chunks, |parser, pause, handle, _| {
+        let (dom, _, _) = drive(ModelDom::for_cfg(&tc.cfg), &tc.cfg, &tc.chunks, |parser, pause, handle, _| {
             let sink = &parser.tokenizer.sink.sink;
             if let (Pause::Script, Some(h)) = (pause, handle) {
                 let a = action_at(pause_no.get());
